@@ -215,6 +215,8 @@ class Lin:
 
 
 def fmt_atom(a):
+    if isinstance(a, tuple) and not a:
+        return "()"
     if isinstance(a, tuple):
         if a[0] == "bits":
             return "%s[%s+:%s]" % (a[1], a[2], a[3])
